@@ -904,6 +904,35 @@ def malformed_boundary_histories():
     return out
 
 
+def recreate_histories():
+    """Bucket ids and event ids that come back: bucket 1 holds the globally newest event id and has just had a
+    replace_last that kept the instant; it is deleted, another bucket receives the next event (on peewee the freed
+    row id is handed out again), bucket 1 is created again, and then every write that addresses 'the last event' or
+    a remembered id of the old bucket 1 arrives.  Anything a store remembers per bucket id or per row across
+    delete_bucket lands on the other bucket's event."""
+    out = []
+    m = [1, 2, 3, 0, 4, 1]
+    for t_keep in (True, False):
+        for n_other in (0, 2):
+            ea = [None, BASE + 5 * SEC, SEC, 1]
+            x = [None, BASE + (5 if t_keep else 6) * SEC, 2 * SEC, 1]
+            y = [None, x[1], 3 * SEC, 7]
+            base = ([["create", 1, m], ["create", 2, m], ["insert", 2, [None, BASE, SEC, 2]]]
+                    + [["insert", 2, [None, BASE + (i + 1) * SEC, 0, 4]] for i in range(n_other)]
+                    + [["insert", 1, ea], ["replace_last", 1, x], ["get", 1, 1, None, None],
+                       ["delete_bucket", 1], ["insert", 2, [None, BASE + 9 * SEC, SEC, 5]], ["create", 1, m]])
+            tails = [[["replace_last", 1, y]],
+                     [["replace", 1, ["gone", 0], y]],
+                     [["delete", 1, ["gone", 0]]],
+                     [["get_event", 1, ["gone", 0]]],
+                     [["insert", 1, [None, BASE + 20 * SEC, 0, 8]], ["replace_last", 1, y]],
+                     [["insert_many", 1, [y, y]], ["replace_last", 1, y], ["delete_bucket", 1], ["create", 1, m],
+                      ["replace_last", 1, y]]]
+            for tail in tails:
+                out.append((base + tail + [["get", 2, -1, None, None], ["get", 1, -1, None, None], ["buckets"]], [1, 2]))
+    return out
+
+
 def bulk_boundary_histories():
     """Deterministic corpus for the bulk call: lists of every small length and composition
     (0, 1, 2, 3 elements; upserts of live ids u, plain inserts n, mixed in both orders; the same id
